@@ -580,7 +580,10 @@ class Gen:
             ln = self.d(st.sampled_from([0, 1, max(0, n - off), max(0, n - off) + 1, n]))
             return [push(T(tt), s), push(T("nat"), ln), push(T("nat"), off), P("SLICE")]
         if k == "HASH":
-            return [push(T("bytes"), self.d(gt.mbytes())), P(self.pick(sorted(ri.HASHES)))]
+            # message lengths around the block / rate sizes of the hash functions (64, 72, 128, 136 bytes) matter for padding
+            n = self.d(st.one_of(st.integers(0, 20), st.sampled_from([55, 56, 63, 64, 65, 71, 72, 111, 112, 119, 120, 127, 128, 129, 135, 136,
+                                                                      137, 143, 144, 199, 200, 255, 256, 271, 272, 273])))
+            return [push(T("bytes"), self.d(st.binary(min_size=n, max_size=n))), P(self.pick(sorted(ri.HASHES)))]
         return [push(T(tt), s)]
 
     def c_pack(self, ts, depth):
@@ -653,7 +656,7 @@ class Gen:
         if k == "EXEC":
             code += [push(at, self.d(gt.values(at))), P("EXEC")]
         elif k == "APPLY":
-            a1, a2 = self.d(small_type(0)), self.d(small_type(0))
+            a1, a2 = self.d(small_type(self.d(st.integers(0, 2)))), self.d(small_type(0))  # the captured type may be deep
             b2, o2 = self.block([T("pair", a1, a2)], self.d(st.integers(0, 2)), depth - 1)
             if o2 is None:
                 r2 = T("unit")
